@@ -36,7 +36,15 @@ class B0(BaseException):
     pass
 
 
-EXC = {'E0': E0, 'E1': E1, 'E2': E2, 'B0': B0}
+class T0(TypeError):
+    """a user error that happens to be a TypeError (a failing get_default computing on its arguments)"""
+
+
+class V0(ValueError):
+    pass
+
+
+EXC = {'E0': E0, 'E1': E1, 'E2': E2, 'B0': B0, 'T0': T0, 'V0': V0}
 
 CURRENT_RUN = contextvars.ContextVar('mlpe_run', default=None)
 
@@ -555,6 +563,9 @@ def _gen_spec(rng, profile, n_min, n_max, fail_p, modes, retry_p, falsy_p, cb_p,
             nd['exceptions'] = rng.choice([None, ['E0'], ['E1'], ['E0', 'E2'], ['E2']])
         if not nd['is_rec'] and rng.random() < 0.2:
             nd['use_default'] = True
+            if rng.random() < 0.2:
+                # a default that fails itself (never for a recurrent destination: the forced default's retry loop is not modelled)
+                nd['dflt_raise'] = rng.choice(['T0', 'V0', 'E2', 'E0', 'T0'])
         if rng.random() < fail_p:
             k = rng.choice([1, 1, 2, 3])
             cls = rng.choice(['E0', 'E1', 'E2', 'E1', 'E0'])
